@@ -90,14 +90,13 @@ _xml_prefixes = tuple(
 _xml_decl = encode_string("<?xml")
 
 RE_META = re.compile(
-    r'\s*<meta\s+(?:'
-    r'http-equiv=["\']?Content-Type["\']?'
-    r'\s+content=["\']?([^;]+);\s*charset=([^"\']+)["\']?'
-    r'|'
-    # the same two attributes in the opposite order
-    r'content=["\']?([^;]+);\s*charset=([^"\'\s]+)["\']?'
-    r'\s+http-equiv=["\']?Content-Type["\']?'
-    r')\s*/?\s*>\s*',
+    # a meta tag which has, in any order and possibly among other
+    # attributes, ``http-equiv="Content-Type"`` and a ``content``
+    # attribute that names a charset
+    r'<meta(?=\s)'
+    r'(?=[^>]*?\shttp-equiv\s*=\s*["\']?Content-Type["\']?[\s/>])'
+    r'[^>]*?\scontent\s*=\s*["\']?([^;"\'>]+);'
+    r'\s*charset\s*=\s*["\']?([^"\'\s/>;]+)',
     re.IGNORECASE
 )
 
@@ -155,9 +154,7 @@ def detect_encoding(
 
     match = RE_META.search(body)
     if match is not None:
-        content_type = match.group(1) or match.group(3)
-        encoding = match.group(2) or match.group(4)
-        return content_type, encoding
+        return match.group(1), match.group(2)
 
     return None, default_encoding
 
